@@ -568,17 +568,17 @@ def quick_modes(fname, d0, full):
 def thorough_modes(fname, d0, full, npairs):
     """thorough tier: [(mode, sample size or None = every ordered pair)]"""
     p = precision(d0); big = npairs > 5000; variant = d0['fam'] == 'ef'
-    nearest_n = None if full else 12000
+    nearest_n = None if full else 8000
     if fname in ('fast_2sum', 'classic_2sum'): return [(m, nearest_n if not (variant and npairs > 2000) else 1500) for m in NEAREST]
     if variant:   # the EFloat layouts other than IEEE: nearest modes and one directed mode
         n = None if npairs <= 1000 else 1500
         return [(m, n) for m in (['rne', 'rna'] if fname in IDEAL[:2] else ['rne', 'rna', 'rtz'])]
     if fname in ('ideal_2sum', 'ideal_2mul'):
         if p <= 3: return [(m, None) for m in RMS]
-        return [(m, None if not big else 2000) for m in ['rne', 'rna', 'rtz', 'rto']]
+        return [(m, None if not big else 1500) for m in ['rne', 'rna', 'rtz', 'rto']]
     # priest_2sum, fast_2mul
     if not big: return [(m, None) for m in RMS]
-    return [('rne', nearest_n)] + [(m, 2000) for m in RMS[1:]]
+    return [('rne', nearest_n)] + [(m, 1500) for m in RMS[1:]]
 
 def run(rep, tier, seed):
     Rng = Prng(seed, 'C20')
